@@ -150,6 +150,52 @@ func c07Classes(small bool) map[string][]c07Sc {
 				}
 			}
 		}
+		// --- zero values WRITTEN BY MAPPERS (they are written values like any other)
+		if n >= 1 {
+			for _, e := range c07MREntries {
+				for v, first := range []int{0, n / 2, n - 1} {
+					if v > 0 && first == 0 {
+						continue
+					}
+					var sp []c07Special
+					used := map[int]bool{}
+					for k, kind := range []string{"nil", "nil-ptr", "empty-string", "false", "empty-struct", "int0"} {
+						at := (first + k*2) % n
+						if used[at] {
+							continue
+						}
+						used[at] = true
+						sp = append(sp, c07Special{At: at, Kind: kind})
+					}
+					add(c07Sc{Class: "mapper-writes-zero-values", Entry: e, N: n, Workers: w, GenPanicAt: -1, WSpecial: sp,
+						Items: c07Items(n, func(i int, it *c07It) { it.W = 1 + i%3 }),
+						Red:   c07Red{Stop: -1, End: 1}, Expect: c07NormalExpect(e, 1)})
+				}
+			}
+			// --- cancel(err) / Finish function error with the values the library itself treats specially: the
+			// call must return exactly the supplied error. (ErrReduceNoOutput and errors wrapping it are not
+			// used with MapReduceVoid / Finish: see registry assumptions.)
+			a := n / 2
+			for _, e := range []string{"MapReduce", "MapReduceVoid", "MapReduceChan", "Finish"} {
+				kinds := []string{"ctx-canceled", "deadline", "cancelnil-sentinel", "wrapped-canceled", "wrapped-deadline"}
+				if e == "MapReduce" || e == "MapReduceChan" {
+					kinds = append(kinds, "noout", "wrapped-noout")
+				}
+				for _, kind := range kinds {
+					kind := kind
+					act := "cancel"
+					if e == "Finish" {
+						act = "err"
+					}
+					add(c07Sc{Class: "cancel-with-sentinel-error", Entry: e, N: n, Workers: w, GenPanicAt: -1,
+						Items: c07Items(n, func(i int, it *c07It) {
+							if i == a {
+								it.Act, it.ErrKind, it.At = act, kind, i%2
+							}
+						}), Red: c07Red{Stop: -1, End: 1}, Expect: []string{fmt.Sprintf("err:%d", a)}})
+				}
+			}
+		}
 		if n == ew+1 {
 			// cancel(err) is executing (its drain took the probe item while all workers are parked), THEN the
 			// reducer writes: the statement promises the value only "without cancellation", so the error must win.
@@ -441,7 +487,7 @@ func c07RunClasses(t *testing.T, m *vk.M, base int, small bool, rounds int, name
 	}
 }
 
-var c07CoreClasses = []string{"normal", "generated-zero-value-items", "reducer-writes-zero-value", "cancel-in-progress+reducer-write", "saturate", "reducer-stops-early", "reducer-early-output", "reducer-writes-twice",
+var c07CoreClasses = []string{"normal", "mapper-writes-zero-values", "cancel-with-sentinel-error", "generated-zero-value-items", "reducer-writes-zero-value", "cancel-in-progress+reducer-write", "saturate", "reducer-stops-early", "reducer-early-output", "reducer-writes-twice",
 	"mapper-cancel", "reducer-cancel", "first-cancel-wins", "mapper-panic", "three-mapper-panics", "generator-panic", "reducer-panic",
 	"ctx-done-mid-run", "ctx-done+generator-keeps-producing", "ctx-done-before-call", "finish-error", "reducer-early-output+late-cancel"}
 
